@@ -2742,6 +2742,7 @@ def xc_unitswitch(ctx, case, bad):
         am.defect.SDVPN(model=src_p, gamma=g2)
         am.defect.SDVPN(volterra=v, gamma=g2)
         terms1 = {t: float(val) for t, val in _impl_terms(pn, {}).items()}
+        _printed_energies(pn, {})
         # ---- switch
         set_units(c2)
         LU2, PU2, EU2, ELU2 = unit_factors()
@@ -2771,6 +2772,24 @@ def xc_unitswitch(ctx, case, bad):
                 x2, d2 = np.array(pb.x, dtype=float).copy(), np.array(pb.disregistry, dtype=float).copy()     # verified above to be the physical profile
                 _check_terms(ctx, case, bad, pb, g3, K0 * PU2, b0 * LU2, T0, A1, A2, st2, x2, d2, 'none', when + 'object loaded under the second units',
                              max(EU2, max(abs(t) for t in case['spec']['E']) * EU2), stored=(x2, d2), eunit=ELU2)
+            # ... and WRITTEN again under the second units, in the same named units: the same record values
+            mg2, mp2 = call(lambda: gb.model(length_unit=lu, energyperarea_unit=eu)), call(lambda: pb.model(length_unit=lu, pressure_unit=pu))
+            if not isinstance(gb, Raised) and not isinstance(mg2, Raised) and not isinstance(mp2, Raised):
+                r1_, r2_ = mg['stacking-fault-map']['stacking-fault-relation'], mg2['stacking-fault-map']['stacking-fault-relation']
+                p1_, p2_ = mp['semidiscrete-variational-Peierls-Nabarro'], mp2['semidiscrete-variational-Peierls-Nabarro']
+                w = _rel(r2_['energy']['value'], r1_['energy']['value'], 1e-12)
+                if not w and 'plane-separation' in r1_:
+                    w = _rel(r2_['plane-separation']['value'], r1_['plane-separation']['value'], 1e-12)
+                for sect, key in (('parameter', 'K_tensor'), ('parameter', 'tau'), ('parameter', 'alpha'), ('parameter', 'beta'), ('parameter', 'cutofflongrange'),
+                                  ('parameter', 'burgers'), ('solution', 'x'), ('solution', 'disregistry')):
+                    w = w or _rel(np.ravel(p2_[sect][key]['value']), np.ravel(p1_[sect][key]['value']), 1e-9, 1e-13 * float(np.abs(np.ravel(p1_[sect][key]['value'])).max()) + 1e-300)
+                    if w:
+                        w = f'{key}: {w}'
+                        break
+                if w:
+                    bad('rewrite', f'{when}the record loaded under the second units and written again as ({lu}, {pu}, {eu}) does not hold the values of the original record: {w}')
+            elif isinstance(mg2, Raised) or isinstance(mp2, Raised):
+                bad('rewrite', f'{when}model() under the second units {mg2 if isinstance(mg2, Raised) else mp2}')
         # the OLD object: its numbers are what they were
         terms2 = _impl_terms(pn, {})
         for t in terms1:
@@ -3619,10 +3638,12 @@ def xc_scale_sdvpn(ctx, case, bad):
             elif not must and not (isinstance(r, Raised) and r.cls == 'err:value'):
                 bad('refusal', f'{when}{fname}(xmax, xstep x {fac}, xnum) (incompatible) is accepted instead of refused with ValueError {tag}')
     # Burgers vector out of the slip plane
-    C = am.ElasticConstants(E=1.2 * PU, nu=0.3)
+    # (anisotropic solution, moduli of order one: the isotropic solver refuses such a Burgers vector itself)
+    C = am.ElasticConstants(C11=1.6, C12=1.0, C44=0.7)
     for t, must in ((0.0, True), (0.3, False), (1e-3, False)):
         vb = call(lambda: am.defect.solve_volterra_dislocation(C, burgers=[2.5 * LU, t * 2.5 * LU, 0.0], transform=np.eye(3)))
         if isinstance(vb, Raised):
+            ctx.notes.append(f'xcut scale-sdvpn: Volterra solution for the Burgers-vector refusal not available at 2^{k}: {vb}') if len(ctx.notes) < 5 else None
             continue
         gs = mk_gamma(scale_spec(gen_gamma_spec(random.Random(1), regime='generic', vects=([2.5, 0.0, 0.0], [0.0, 0.0, 4.0], None, 'rect-xz'), grid=(4, 3), dup=False, delta=False, sinus=0.05), LU, EU))
         r = call(lambda: am.defect.SDVPN(volterra=vb, gamma=gs))
